@@ -171,11 +171,13 @@ def main():
 
     ctx = Ctx(prop, tier, seed, bins)
     ctx.drivers = list(getattr(mod, "DRIVERS", [prop]))
+    replay_rec = None
     if args.replay:
-        rec = json.load(open(args.replay))
-        ok = mod.replay(ctx, rec) if hasattr(mod, "replay") else None
-        print("replay:", "property holds on this input" if ok else "still failing" if ok is False else "module has no replay")
-        return 0 if ok else 1
+        # replay = re-run the check with the recorded tier and seed and look for the same (clause, case) again
+        replay_rec = json.load(open(args.replay))
+        ctx.tier = replay_rec.get("tier", tier)
+        ctx.seed = int(replay_rec.get("seed", seed))
+        ctx.rng = random.Random((ctx.seed * 1000003) ^ hash_str(prop))
     try:
         if pr["problems"] and any("do not compile" in p for p in pr["problems"]):
             # the model itself may not be built; the correspondence cannot run reliably
@@ -193,6 +195,16 @@ def main():
                                    no_failing_input_found=True))
     violations = ctx.violations
     known = ctx.known
+    if replay_rec is not None:
+        same = [v for v in violations if v["clause"] == replay_rec.get("clause") and
+                json.dumps(v["case"], sort_keys=True, default=str) == json.dumps(replay_rec.get("case"), sort_keys=True, default=str)]
+        if same:
+            print("replay: still failing: %s" % json.dumps(same[0]["observed"], default=str)[:500])
+            print("VIOLATION property=%s replay=%s" % (prop, args.replay))
+            return 1
+        other = [v for v in violations if v["clause"] == replay_rec.get("clause")]
+        print("replay: the recorded case no longer fails" + (" (%d other violations of the same clause)" % len(other) if other else ""))
+        return 1 if other else 0
 
     # a broken obligation with no failing input found is still a violation
     if pr["problems"] and not [v for v in violations if not v.get("no_failing_input_found")]:
